@@ -15,7 +15,8 @@ Inputs file:  {"obsets": [[observer, ...], ...], "hist": [history, ...]}
 
 Cases file:   {"obsets": ..., "cases": [{"inp": history, "out": [step, ...], "from": n, "exc": ""}]}
   step = {"ty": {column: type name}, "rows": [{"id", "pos", "k", "L", "s1", "s2", "r"}], "probes": [...],
-          "cells": [[[row ids] per probe] per observer], "errs": [{"j": observer, "i": probe, "e": class}]}
+          "cells": [[[row ids] per probe] per observer], "errs": [{"j": observer, "i": probe, "e": class}],
+          "di", "dn": an identical record (same observers) is step dn of the earlier case di of the file (0: none)}
   out[0] is the observation after the initial load, out[n] after edit n.  "from" = number of leading
   steps whose input AND recorded observation are identical to those of the previous case of this file
   (they were judged there); these steps are blanked in the file.
@@ -239,7 +240,7 @@ class Session(object):
 
 
 def blank(step):
-  return {"ty": step["ty"], "rows": [], "probes": [], "cells": [], "errs": []}
+  return {"ty": step["ty"], "rows": [], "probes": [], "cells": [], "errs": [], "di": 0, "dn": 0}
 
 
 def main():
@@ -249,6 +250,7 @@ def main():
   obsets = data["obsets"]
   cases = []
   sess, sess_ox, s0 = None, None, 1
+  records = {}
   prev = None                      # (history, full recorded out) of the previous case
   for h in data["hist"]:
     ox = h["ox"]
@@ -277,7 +279,16 @@ def main():
         while n < shared and out[n] == pout[n]:
           n += 1
         shared = n
-    prev = (h, out) if not exc else None
+    prev = (h, [dict(s) for s in out]) if not exc else None
+    # a record identical to one recorded earlier in this file (same observers) is marked, not judged twice
+    for n, s in enumerate(out):
+      s["di"] = s["dn"] = 0
+    for n, s in enumerate(out):
+      if n >= shared:
+        key = (ox, json.dumps([s["ty"], s["rows"], s["probes"], s["cells"], s["errs"]], sort_keys=True))
+        first = records.setdefault(key, (len(cases) + 1, n))
+        if first != (len(cases) + 1, n):
+          out[n] = dict(s, di=first[0], dn=first[1])
     cases.append({"inp": h, "out": [blank(s) if n < shared else s for n, s in enumerate(out)],
                   "from": shared, "exc": exc, "s0": s0})
     # after an exception, a type change or ReplaceTableData the engine is not used again: on the
